@@ -478,3 +478,70 @@ def forwarded_defaults(ctx, world):
                 else:
                     ctx.fail("A2.fwd", inst, f"{e.mode}:{e.prim_id}|fwd:{base_name(ref)}", e.loc, f"the rule forwards (*args, **kwargs) of {base_name(e.prim)} to {base_name(ref)}, but {bad}", f"{base_name(e.prim)} called with the affected parameter left at its default on an input where the two defaults differ (e.g. a stack of 2-D signals for rfft2)")
     ctx.floor("A2.fwd forwarding calls", n, 4)
+
+
+def dropped_options(ctx, world, modes=("vjp", "jvp")):
+    """A2.drop - an option of the primitive that a rule hands on to a NumPy function at all must be handed on
+    completely: when the rule passes some of the primitive's optional parameters to the same-named parameters of a
+    callee, every other optional parameter the two signatures share (and the rule receives) has to be passed too -
+    otherwise the callee runs with ITS default while the forward pass ran with the caller's value
+    (sort(x, kind="stable") differentiated through argsort(x, axis=axis, order=order))."""
+    from ..terms import walk as _walk
+    from ..tutil import expand, unseq
+
+    ctx.describe("A2.drop", "a call inside a rule that receives at least one optional parameter of the primitive under the same name in the callee's signature also receives every other optional parameter the two NumPy signatures share, unless the rule consults that parameter elsewhere: an option that the rule binds, that the callee takes and that the rule never looks at has been dropped")
+    n = 0
+    for e in world.table.entries:
+        if e.mode not in modes or e.spec != "maker" or not world.in_numpy_scope(e) or not is_numpy_callable(e.prim):
+            continue
+        psig = world.env.signature(e.prim.qual)
+        ir = world.ir(e)
+        if not psig or ir is None or not ir.ok or ir.maker is None:
+            continue
+        popt = [p for p in psig["pos"] + psig["kwonly"] if p in psig["defaults"]]
+        if not popt:
+            continue
+        ma = ir.maker.fnode.args
+        bound = {a.arg for a in ma.posonlyargs + ma.args + ma.kwonlyargs}
+        # an option the rule consults anywhere (a recursion count, a guard, another call) is not "dropped": only an
+        # option the rule never looks at, although the callee takes it, is
+        used_anywhere = set()
+        for root in (ir.made, ir.result):
+            if root is not None:
+                for x in _walk(unseq(expand(world.ev, root, ()))):
+                    if x.op == "arg" and x.get("name"):
+                        used_anywhere.add(x.name)
+        for root in (ir.made, ir.result):
+            if root is None:
+                continue
+            for t in _walk(unseq(expand(world.ev, root, ()))):
+                if t.op != "call":
+                    continue
+                ref, pre = resolve_callee(world.ev, t)
+                if ref is None or not is_numpy_callable(ref):
+                    continue
+                qsig = world.env.signature(ref.qual)
+                if not qsig:
+                    continue
+                if any(a.op == "star" for a in t.args) or t.get("dstar"):
+                    continue  # forwarding of the whole argument list: A2.fwd
+                # which parameters of the callee are bound by this call, and by what
+                binding = {}
+                for i, a in enumerate(list(pre) + list(t.args)):
+                    if i < len(qsig["pos"]):
+                        binding[qsig["pos"][i]] = a
+                for k, v in t.kw.items():
+                    binding[k] = v
+                is_popt = lambda a, name: a.op == "arg" and a.get("name") == name
+                handed = [p for p in popt if p in binding and is_popt(binding[p], p)]
+                if not handed:
+                    continue
+                n += 1
+                shared = [p for p in popt if p in (qsig["pos"] + qsig["kwonly"]) and p in qsig["defaults"] and p in bound and p not in ("out", "dtype", "where", "casting", "subok")]
+                missing = [p for p in shared if p not in binding and p not in used_anywhere]
+                inst = f"{construct_of(e)} -> {base_name(ref)}({', '.join(handed)})"
+                if not missing:
+                    ctx.ob("A2.drop", inst, True, e.loc)
+                else:
+                    ctx.fail("A2.drop", inst, f"{e.mode}:{e.prim_id}|drop:{base_name(ref)}:{missing[0]}", e.loc, f"the rule hands `{', '.join(handed)}` of {base_name(e.prim)} on to {base_name(ref)} but not `{missing[0]}`, which both functions take: the callee uses its own default ({qsig['defaults'][missing[0]]!r})", f"{base_name(e.prim)} called with {missing[0]}= a value other than the default")
+    ctx.floor(f"A2.drop option-forwarding calls ({'+'.join(modes)})", n, 10 if "vjp" in modes else 4)
